@@ -259,7 +259,7 @@ pub fn run(ctx: &Ctx) {
     );
     let limit = match t {
         Tier::Quick => 10_000u64,
-        Tier::Thorough => 100_000,
+        Tier::Thorough => 400_000,
     };
     ctx.enumerated(
         "small-exhaustive",
@@ -291,7 +291,7 @@ pub fn run(ctx: &Ctx) {
     ctx.generated(
         "random-tails",
         "round",
-        t.pick(200_000, 4_000_000),
+        t.pick(200_000, 10_000_000),
         "1..max digits; tails: tie 50..0, near-tie 49..9x / 50..01, all nines, dense nines, sparse; targets at the tail cut, at / left of the leading digit, extension, anywhere; zeros; both signs; 7 modes",
         move || round_strategy(max_len),
         check_round,
